@@ -42,7 +42,10 @@ def malformed_cases(rng, opts, cli_groups, cfg_groups, count):
             argv = ["--config", "@CFG@"]
             cfg = ["%s=%s" % (o["name"], bad)]
         else:
-            argv = ["--config", "@NOFILE@"]
+            # a config file that does not exist - also one that is CALLED default.cfg but lives in another directory
+            # (only the implicit ./default.cfg may be missing silently)
+            argv = ["--config", rng.choice(["@NOFILE@", "/nonexistent_dir_%d/default.cfg" % rng.randint(0, 99),
+                                            "no_such_subdir/default.cfg"])]
             cfg = None
         text = "opts %s\nargv %s\n%srun\n" % (cid, " ".join(argv), ("cfg %s\n" % " ".join(cfg)) if cfg else "")
         recs.append(dict(id=cid, kind=kind, argv=argv, cfg=cfg or [], optext=text, expect="norun" if kind == "missing-cfg" else "error"))
